@@ -198,6 +198,12 @@ class SourceModel:
         return self.modules[name]
 
     def cls(self, name: str) -> ClassInfo:
+        cc = self.__dict__.setdefault('_cls_cache', {})
+        if name not in cc:
+            cc[name] = self._cls(name)
+        return cc[name]
+
+    def _cls(self, name: str) -> ClassInfo:
         c = self.classes.get(name)
         if not c:
             raise AnalysisError('S', f'class {name} not found')
@@ -270,13 +276,24 @@ class SourceModel:
 
     def local_bindings(self, fn: FunctionInfo) -> dict:
         """Imports made inside a function body (the translators import collaborators locally)."""
-        out = {}
+        cache = self.__dict__.setdefault('_lb_cache', {})
+        k = id(fn.node)
+        if k in cache:
+            return cache[k]
+        out = cache[k] = {}
         for st in ast.walk(fn.node):
             if isinstance(st, (ast.Import, ast.ImportFrom)):
                 self._bind_stmt(fn.module, st, out)
         return out
 
     def resolve(self, name: str, module: ModuleInfo, fn: FunctionInfo | None = None):
+        cache = self.__dict__.setdefault('_res_cache', {})
+        k = (name, module.name, id(fn.node) if fn is not None else 0)
+        if k not in cache:
+            cache[k] = self._resolve(name, module, fn)
+        return cache[k]
+
+    def _resolve(self, name: str, module: ModuleInfo, fn: FunctionInfo | None = None):
         if fn is not None:
             lb = self.local_bindings(fn)
             if name in lb:
